@@ -36,6 +36,7 @@ type Contract struct {
 	Requires  []*Clause
 	Ensures   []*Clause
 	Assumes   []*Clause
+	Applies   []*Clause // "apply x.ghostLemma(args)": lemma methods (verified ghost code) instantiated at function entry
 	Modifies  []string
 	HasMod    bool
 	PanicsWhen *Clause
@@ -84,7 +85,7 @@ type TypeSpec struct {
 
 var clauseKeywords = map[string]bool{"property": true, "requires": true, "ensures": true, "modifies": true,
 	"panics": true, "loop": true, "invariant": true, "decreases": true, "exit": true, "trusted": true, "pure": true, "reads": true, "mode": true,
-	"nosafety": true, "utf8": true, "order": true, "atcall": true, "assumes": true, "ghostfield": true, "holds": true, "nowrap": true, "exclusive": true, "inline": true, "forall": true, "guards": true, "lockinv": true, "ghost": true, "unroll": true}
+	"nosafety": true, "utf8": true, "order": true, "atcall": true, "assumes": true, "apply": true, "ghostfield": true, "holds": true, "nowrap": true, "exclusive": true, "inline": true, "forall": true, "guards": true, "lockinv": true, "ghost": true, "unroll": true}
 
 // rewriteImplies turns `A ==> B` (lowest precedence, right associative, split at
 // bracket depth 0) into `(!(A) || (B))`, recursively inside brackets too.
@@ -409,6 +410,13 @@ func (e *Engine) parseContractFile(p *packages.Package, f *ast.File, fname strin
 				cur.Requires = append(cur.Requires, cl)
 			} else if curLemma != nil {
 				curLemma.Requires = append(curLemma.Requires, cl)
+			}
+		case "apply":
+			// apply recv.ghostLemma(args): the contract of a verified ghost method (a lemma proved
+			// as code, typically by a loop = induction) is instantiated at function entry: its
+			// postcondition is assumed where its precondition holds
+			if cur != nil {
+				cur.Applies = append(cur.Applies, e.parseClause(rest, where))
 			}
 		case "assumes":
 			// a postcondition callers may rely on but the body does not prove here (listed as trusted)
